@@ -290,6 +290,61 @@ func ruleScratchReverse(c *Ctx, rule string) {
 		return true
 	})
 	if len(reads) == 0 {
+		// the reversal may sit in a private helper whose result is appended (c.Append(reverseSegment(&r, src, seg))):
+		// the helper's own scratch object, read where it returns r.Slice()
+		var helper *ast.FuncDecl
+		ast.Inspect(fd.Body, func(n ast.Node) bool {
+			call, ok := n.(*ast.CallExpr)
+			if !ok {
+				return true
+			}
+			if sel, ok := call.Fun.(*ast.SelectorExpr); ok && sel.Sel.Name == "Append" && len(call.Args) == 1 {
+				if inner, ok := unparen(call.Args[0]).(*ast.CallExpr); ok {
+					if h := helperDecl(p, inner); h != nil && h.Recv == nil {
+						helper = h
+					}
+				}
+			}
+			return true
+		})
+		if helper != nil {
+			scratch = map[types.Object]bool{}
+			ast.Inspect(helper.Body, func(n ast.Node) bool {
+				if id, ok := n.(*ast.Ident); ok {
+					if v, ok := p.TypesInfo.ObjectOf(id).(*types.Var); ok && isNamed(v.Type(), p.PkgPath, "SliceReverser") {
+						scratch[v] = true
+					}
+				}
+				return true
+			})
+			// parameters of the helper are not its scratch (the source comes in as one)
+			if helper.Type.Params != nil {
+				for _, fl := range helper.Type.Params.List {
+					for _, nm := range fl.Names {
+						delete(scratch, p.TypesInfo.Defs[nm])
+					}
+				}
+			}
+			ast.Inspect(helper.Body, func(n ast.Node) bool {
+				ret, ok := n.(*ast.ReturnStmt)
+				if !ok {
+					return true
+				}
+				for _, res := range ret.Results {
+					if inner, ok := unparen(res).(*ast.CallExpr); ok && len(inner.Args) == 0 {
+						if o := recvObj(inner, "Slice"); o != nil && scratch[o] {
+							reads = append(reads, read{inner, o})
+						}
+					}
+				}
+				return true
+			})
+			if len(reads) > 0 {
+				fd = helper
+			}
+		}
+	}
+	if len(reads) == 0 {
 		c.und(rule, "sequtils.Compose/scratch-append", fd.Pos(), "no append of a scratch reverser's slice found")
 		return
 	}
